@@ -275,6 +275,28 @@ def run_cli_case(case, ctx, res):
 
     attached = con.attach("reuse.copyright", "merge_copyright_lines", cond_merge)
     try:
+        # one invocation over several files: what one file's header says is that file's, whichever is taken first
+        pd = root / "pair"
+        pd.mkdir()
+        stated = {"a.py": "Alice Example", "b.py": "Bob Example", "c.py": None, "d.py": "Dora Example"}
+        for nme, who in stated.items():
+            (pd / nme).write_text((f"# SPDX-FileCopyrightText: 20{ord(nme[0]) % 20:02d} {who}\n\n" if who else "") + f"print('{nme}')\n")
+        margs = ["--merge-copyrights"] if rng.random() < 0.6 else []
+        rp = run_cli(["--no-multiprocessing", "--root", str(root), "annotate", "-c", "Carol Example", "--year", "2020"] + margs +
+                     [str(pd / n) for n in rng.sample(sorted(stated), 4)], cwd=str(root))
+        res.n += 1
+        res.cell("cli-several-files-in-one-run")
+        if rp.escaped or rp.exit_code != 0:
+            res.violation("annotate-failed", f"annotate over four files exit {rp.exit_code} {rp.exc_type}", **rp.brief())
+        else:
+            for nme, who in stated.items():
+                text = (pd / nme).read_text()
+                foreign = [w for w in stated.values() if w and w != who and w in text]
+                if foreign or "Carol Example" not in text or (who and who not in text):
+                    res.violation("cli-notices-leak-between-files-of-one-run", f"{nme} (stated: {who}) after one run over four files names {foreign} "
+                                  f"as well: {text[:300]!r}")
+                    break
+        shutil.rmtree(pd, ignore_errors=True)
         for j in range(case["n"]):
             res.n += 1
             # the comment style is part of how a notice is written down and read again: letters as markers (c, REM, dnl), '!', '%'
